@@ -7,6 +7,8 @@ import (
 	"go/token"
 	"go/types"
 	"strings"
+
+	"golang.org/x/tools/go/packages"
 )
 
 func init() { register("C06", checkC06) }
@@ -31,7 +33,7 @@ func classOfOrigins(o map[string]bool) (user, param bool, tag string) {
 
 func checkC06(r *Run) propMeta {
 	meta := propMeta{Level: "other",
-		Explanation: "Decides the capture-freedom necessary condition of hygienic translation by provenance (origin-tag) analysis of identifier values in package translate: (R1) the alias table (Scope.aliases, reached through Alias/AliasedLookup/LookupString) holds user variable and projection-alias symbols; a key derived from a parameter symbol must carry an injective constant tag so that $n and n cannot meet, and no single key expression mixes both classes; (R2) the definitions table (Scope.Lookup/LookupBindings/Define), which is keyed by generated identifiers, is never indexed with a value derived from a user or parameter symbol; (R3) BoundIdentifier.Parameter is dereferenced only on a binding obtained through a parameter-class key or freshly defined as a parameter. (R4) wherever one identifier is looked up in both tables inside one function, the generated-name table (Lookup) is consulted before the user-symbol table (AliasedLookup), so a user symbol spelled like a generated name cannot capture the lookup. (R5) the functions that substitute a user-chosen alias into an expression (table c06_alias_substitutions, confirmed by reading) are called on an expression only after RewriteFrameBindings has run on it, never before. NOT decided: that renamed twins produce byte-identical SQL apart from aliases and parameter keys (value-level), and user aliases rendered as output column names (reported under C04).",
+		Explanation: "Decides the capture-freedom necessary condition of hygienic translation by provenance (origin-tag) analysis of identifier values in package translate: (R1) the alias table (Scope.aliases, reached through Alias/AliasedLookup/LookupString) holds user variable and projection-alias symbols; a key derived from a parameter symbol must carry an injective constant tag so that $n and n cannot meet, and no single key expression mixes both classes; (R2) the definitions table (Scope.Lookup/LookupBindings/Define), which is keyed by generated identifiers, is never indexed with a value derived from a user or parameter symbol; (R3) BoundIdentifier.Parameter is dereferenced only on a binding obtained through a parameter-class key or freshly defined as a parameter. (R4) wherever one identifier is looked up in both tables inside one function, the generated-name table (Lookup) is consulted before the user-symbol table (AliasedLookup), so a user symbol spelled like a generated name cannot capture the lookup. (R5) the functions that substitute a user-chosen alias into an expression (table c06_alias_substitutions, confirmed by reading) are called on an expression only after RewriteFrameBindings has run on it, never before. (R6) a CTE column list that mixes an alias carried from the query with a fixed internal column name is guarded by a comparison of the two. NOT decided: that renamed twins produce byte-identical SQL apart from aliases and parameter keys (value-level), and user aliases rendered as output column names (reported under C04).",
 		Assumptions: []string{"origin tags are flow-insensitive within a function; parameters are resolved through static call sites; return summaries add constants/fields flowing into a callee's first result"},
 		TrustedBase: []string{"go/types", "this analyser"}}
 	if err := r.Load("./cypher/..."); err != nil {
@@ -249,6 +251,7 @@ func checkC06(r *Run) propMeta {
 		}
 	}
 	r.Floor("C06-R5-alias-after-frame-rewrite", 1)
+	checkShapeAliasCollisions(r, tp)
 	r.Floor("C06-R1-alias-namespace", 15)
 	r.Floor("C06-R2-definition-namespace", 8)
 	r.Floor("C06-R3-parameter-deref", 1)
@@ -263,4 +266,131 @@ func hasUserOrigin(o map[string]bool) bool {
 		}
 	}
 	return false
+}
+
+// checkShapeAliasCollisions (R6): the hand-built lowerings name some columns of their CTEs after aliases taken from the
+// query (carried as strings in the optimiser's shape structs) and others after fixed internal names.  A column list
+// that mixes the two declares the same column twice when the user's alias is spelled like the internal name
+// (`ranked(root_id, root_id)`), turning a translatable query into an SQL error under a mere renaming.  Every such mix
+// needs a guard somewhere in the package that compares that alias with that internal name.
+func checkShapeAliasCollisions(r *Run, tp *packages.Package) {
+	const rule = "C06-R6-alias-collision"
+	info := tp.TypesInfo
+	// shapeField(e): the optimiser shape field (string-typed) that e converts, directly or through a local
+	var shapeField func(fd *ast.FuncDecl, e ast.Expr, depth int) *types.Var
+	shapeField = func(fd *ast.FuncDecl, e ast.Expr, depth int) *types.Var {
+		if depth > 4 {
+			return nil
+		}
+		switch x := ast.Unparen(e).(type) {
+		case *ast.CallExpr:
+			if tv, ok := info.Types[x.Fun]; ok && tv.IsType() && len(x.Args) == 1 {
+				return shapeField(fd, x.Args[0], depth+1)
+			}
+		case *ast.SelectorExpr:
+			if s := info.Selections[x]; s != nil && s.Kind() == types.FieldVal {
+				fv := s.Obj().(*types.Var)
+				if fv.Pkg() != nil && strings.HasSuffix(fv.Pkg().Path(), "/pgsql/optimize") {
+					if b, ok := fv.Type().Underlying().(*types.Basic); ok && b.Kind() == types.String {
+						return fv
+					}
+				}
+			}
+		case *ast.Ident:
+			obj := info.Uses[x]
+			if obj == nil || fd == nil {
+				return nil
+			}
+			var found *types.Var
+			ast.Inspect(fd.Body, func(n ast.Node) bool {
+				if as, ok := n.(*ast.AssignStmt); ok && len(as.Lhs) == len(as.Rhs) {
+					for i, l := range as.Lhs {
+						if id, ok := l.(*ast.Ident); ok && info.Defs[id] == obj && found == nil {
+							found = shapeField(fd, as.Rhs[i], depth+1)
+						}
+					}
+				}
+				return true
+			})
+			return found
+		}
+		return nil
+	}
+	constOf := func(e ast.Expr) types.Object {
+		if id, ok := ast.Unparen(e).(*ast.Ident); ok {
+			if c, ok := info.Uses[id].(*types.Const); ok {
+				return c
+			}
+		}
+		return nil
+	}
+	// guards: comparisons between a shape field and a constant anywhere in the package
+	type pair struct {
+		f *types.Var
+		c types.Object
+	}
+	guards := map[pair]bool{}
+	for _, f := range tp.Syntax {
+		for _, d := range f.Decls {
+			fd, ok := d.(*ast.FuncDecl)
+			if !ok || fd.Body == nil {
+				continue
+			}
+			ast.Inspect(fd.Body, func(n ast.Node) bool {
+				be, ok := n.(*ast.BinaryExpr)
+				if !ok || (be.Op != token.EQL && be.Op != token.NEQ) {
+					return true
+				}
+				for _, pr := range [][2]ast.Expr{{be.X, be.Y}, {be.Y, be.X}} {
+					if fv := shapeField(fd, pr[0], 0); fv != nil {
+						if c := constOf(pr[1]); c != nil {
+							guards[pair{fv, c}] = true
+						}
+					}
+				}
+				return true
+			})
+		}
+	}
+	n := 0
+	for _, f := range tp.Syntax {
+		for _, d := range f.Decls {
+			fd, ok := d.(*ast.FuncDecl)
+			if !ok || fd.Body == nil {
+				continue
+			}
+			ast.Inspect(fd.Body, func(x ast.Node) bool {
+				cl, ok := x.(*ast.CompositeLit)
+				if !ok {
+					return true
+				}
+				sl, ok := info.TypeOf(cl).Underlying().(*types.Slice)
+				if !ok || namedName(sl.Elem()) != "Identifier" || namedName(info.TypeOf(cl)) == "CompoundIdentifier" {
+					return true
+				}
+				var consts []types.Object
+				var fields []*types.Var
+				for _, el := range cl.Elts {
+					if c := constOf(el); c != nil {
+						consts = append(consts, c)
+					} else if fv := shapeField(fd, el, 0); fv != nil {
+						fields = append(fields, fv)
+					}
+				}
+				for _, fv := range fields {
+					for _, c := range consts {
+						n++
+						construct := funcDeclName(fd) + ":" + fv.Name() + "~" + c.Name()
+						if guards[pair{fv, c}] {
+							r.Pass(rule, construct, cl.Pos(), "the lowering is refused when %s is spelled like %s", fv.Name(), c.Name())
+						} else {
+							r.Fail(rule, construct, cl.Pos(), "the column list names one column after the query's %s and another %s, and nothing compares the two: an alias spelled like the internal name declares the column twice, so renaming an alias turns a translatable query into an SQL error", fv.Name(), c.Name())
+						}
+					}
+				}
+				return true
+			})
+		}
+	}
+	r.Note("%s: %d (alias, internal name) pairs examined", rule, n)
 }
